@@ -124,7 +124,7 @@ def check(ctx):
         ctx.cov["evaluations"] = 1
         return core.finish(ctx)
     # (a) verdicts on cyclic graphs
-    n = 6000 if ctx.thorough else 1200
+    n = 18000 if ctx.thorough else 1200
     cy = [cyc.gen_cyclic(ctx.rng) for _ in range(n)]
     for s in cyc.CORPUS:
         cy.append(({"mods": {"file:///w/main.oal": s}, "main": "file:///w/main.oal", "features": ["corpus"], "ast": None}, None))
@@ -189,7 +189,7 @@ def check(ctx):
         if prob:
             ctx.violation(prob, {"program": {"mods": m, "main": "file:///w/main.oal"}}, "see message", "see message")
     # (b') instantiations of one recursive schema, nested in function bodies
-    ips = [inst_program(ctx.rng) for _ in range(60 if ctx.thorough else 12)]
+    ips = [inst_program(ctx.rng) for _ in range(180 if ctx.thorough else 12)]
     ires = progs.compile_many([{"mods": {"file:///w/main.oal": src}, "main": "file:///w/main.oal"} for src, _ in ips])
     for (src, exp), r in zip(ips, ires):
         ctx.cov["evaluations"] += 1
@@ -205,9 +205,9 @@ def check(ctx):
     # the evaluator tie on the recursive programs (Model/Eval.v keys implicit components by (node, innermost scope))
     from . import evaltie
     evaltie.run(ctx, [{"mods": {"file:///w/main.oal": src}, "main": "file:///w/main.oal"} for src, _ in ips]
-                + [{"mods": m, "main": "file:///w/main.oal"} for m, _ in TEMPLATES] + [c[0] for c in cy[: (600 if ctx.thorough else 150)]])
+                + [{"mods": m, "main": "file:///w/main.oal"} for m, _ in TEMPLATES] + [c[0] for c in cy[: (1800 if ctx.thorough else 150)]])
     # (c) relocation
-    gp = [p for p in progs.gen_programs(ctx, 1500 if ctx.thorough else 400, multi=True)]
+    gp = [p for p in progs.gen_programs(ctx, 4500 if ctx.thorough else 400, multi=True)]
     r1 = progs.compile_many(gp)
     r2 = progs.compile_many([relocate(p) for p in gp])
     for p, a, b in zip(gp, r1, r2):
